@@ -243,3 +243,133 @@ mutant("c15-ident-end-from-char-counter",
        [(L, "        let start = self.scanner.index;\n        while let Some(c) = self.scanner.peek_char() {\n            if !c.is_ascii_alphanumeric() && c != '_' {\n                break;\n            }\n            self.scanner.next_char();\n        }\n        let end = self.scanner.index;\n\n        let t = self.scanner.range(start, end);\n\n        match t {",
             "        let start = self.scanner.index;\n        let mut seen: Vec<char> = vec![];\n        while let Some(c) = self.scanner.peek_char() {\n            if !c.is_ascii_alphanumeric() && c != '_' {\n                break;\n            }\n            seen.push(c);\n            self.scanner.next_char();\n        }\n        let end = start + seen.len();\n\n        let t = self.scanner.range(start, end);\n\n        match t {")],
        [("C15", "R15.1"), ("C03", "R03.3"), ("C02", "R02.3")], note="harmless for ASCII identifiers; pattern check")
+
+# ---- general behaviour-preserving refactors ------------------------------------
+refactor("gen-rename-private-helpers",
+         [(E, "fn value_to_pairs(v: &Value)", "fn iterable_to_pairs(v: &Value)"),
+          (E, "            let pairs = value_to_pairs(&iter_val.v)", "            let pairs = iterable_to_pairs(&iter_val.v)"),
+          (E, "// `value_to_pairs` returns", "// `iterable_to_pairs` returns")],
+         note="rename a private function")
+refactor("gen-extract-while-arm-helper",
+         [(E, """        Stmt::While{cond, stmts} => {
+            loop {
+                let b = eval_expr_to_bool(context, scopes, "condition", cond)
+                    .context(EvalWhileConditionFailed)?;
+
+                if !b {
+                    break;
+                }
+
+                let escape = eval_stmts_in_new_scope(context, scopes, stmts)
+                    .context(EvalWhileStatementsFailed)?;
+
+                match escape {
+                    Escape::None => {},
+                    Escape::Break{..} => break,
+                    Escape::Continue{..} => continue,
+                    Escape::Return{..} => return Ok(escape),
+                }
+            }
+        },
+""", """        Stmt::While{cond, stmts} => {
+            return eval_while(context, scopes, cond, stmts);
+        },
+"""),
+          (E, "fn validate_args(args: &[Expr]) -> Result<()> {", """fn eval_while(
+    context: &EvaluationContext,
+    scopes: &mut ScopeStack,
+    cond: &Expr,
+    stmts: &Block,
+)
+    -> Result<Escape>
+{
+    loop {
+        let b = eval_expr_to_bool(context, scopes, "condition", cond)
+            .context(EvalWhileConditionFailed)?;
+
+        if !b {
+            break;
+        }
+
+        let escape = eval_stmts_in_new_scope(context, scopes, stmts)
+            .context(EvalWhileStatementsFailed)?;
+
+        match escape {
+            Escape::None => {},
+            Escape::Break{..} => break,
+            Escape::Continue{..} => continue,
+            Escape::Return{..} => return Ok(escape),
+        }
+    }
+
+    Ok(Escape::None)
+}
+
+fn validate_args(args: &[Expr]) -> Result<()> {""")],
+         note="the while arm extracted into its own function")
+refactor("gen-reorder-operator-arms",
+         [(E, """        BinaryOp::And |
+        BinaryOp::Or => {
+            match (lhs, rhs) {
+                (Value::Bool(a), Value::Bool(b)) => {
+                    let v =
+                        match op {
+                            BinaryOp::And => *a && *b,
+                            BinaryOp::Or => *a || *b,
+
+                            _ => panic!("unexpected operation"),
+                        };
+
+                    Ok(Value::Bool(v))
+                },
+
+                _ => {
+                    Err(new_invalid_op_types())
+                },
+            }
+        },
+""", """        BinaryOp::Or |
+        BinaryOp::And => {
+            if let (Value::Bool(a), Value::Bool(b)) = (lhs, rhs) {
+                let v =
+                    match op {
+                        BinaryOp::Or => *a || *b,
+                        BinaryOp::And => *a && *b,
+
+                        _ => panic!("unexpected operation"),
+                    };
+
+                Ok(Value::Bool(v))
+            } else {
+                Err(new_invalid_op_types())
+            }
+        },
+""")],
+         note="arms reordered and a match rewritten as if-let")
+refactor("gen-unrelated-builtin-and-error",
+         [("src/eval/error.rs",
+           '    #[snafu(display("{}", msg))]\n    BuiltinFuncErr{msg: String},',
+           '    #[snafu(display("{}", msg))]\n    BuiltinFuncErr{msg: String},\n    #[snafu(display("`{}` expects a list", fn_name))]\n    BuiltinExpectsList{fn_name: String},'),
+          ("src/builtins/fns.rs", "// `assert_args` asserts that", """#[allow(clippy::needless_pass_by_value, dead_code)]
+pub fn list_len(this: Option<SourcedValue>, args: Vec<SourcedValue>)
+    -> Result<SourcedValue>
+{
+    assert_args("list_len", 1, &args)
+        .context(AssertArgsFailed)?;
+
+    assert_no_this(this.as_ref())
+        .context(AssertNoThisFailed)?;
+
+    if let Value::List(items) = &args[0].v {
+        let n = lock_deref!(items).len();
+        match i64::try_from(n) {
+            Ok(n) => Ok(value::new_int(n)),
+            Err(_) => Err(Error::BuiltinFuncErr{msg: "list too long".to_string()}),
+        }
+    } else {
+        Err(Error::BuiltinExpectsList{fn_name: "list_len".to_string()})
+    }
+}
+
+// `assert_args` asserts that""")],
+         note="a new (unregistered) builtin and a new leaf error with a message")
